@@ -63,8 +63,14 @@ Inductive ekey : Type :=
 | KList (table key : bytes) (seq : Z)                  (* list element *)
 | KZScore (table key : bytes) (score : N) (member : bytes)   (* zset score index *)
 | KBitmap (table key : bytes) (idx : Z)                (* bitmap segment *)
-| KJson (table rk : bytes).                            (* json document *)
+| KJson (table rk : bytes)                             (* json document *)
+| KTableMeta (table : bytes)                           (* table key counter *)
+| KTableIndexMeta (itype : N) (table : bytes)          (* table index schema *)
+| KExpTime (dt : N) (raw : bytes) (when : Z)           (* expire queue entry (consistency policy) *)
+| KExpMeta (dt : N) (raw : bytes).                     (* expire time of a key (consistency policy) *)
 
+Definition is_other_type (t : N) : bool :=
+  (t =? table_meta_type) || (t =? table_index_meta_type) || (t =? exp_time_type) || (t =? exp_meta_type).
 Definition is_meta_type (t : N) : bool :=
   (t =? hsize_type) || (t =? ssize_type) || (t =? zsize_type) || (t =? lmeta_type) || (t =? bitmap_meta_type).
 
@@ -77,6 +83,10 @@ Definition encode_ekey (x : ekey) : bytes :=
   | KZScore t k sc m => z_encode_score_key false false t k m sc
   | KBitmap t k i => encode_bitmap_key t k i
   | KJson t rk => encode_json_key t rk
+  | KTableMeta t => encode_table_meta_key t
+  | KTableIndexMeta it t => encode_table_index_meta_key t it
+  | KExpTime dt raw w => exp_encode_time_key dt raw w
+  | KExpMeta dt raw => exp_encode_meta_key dt raw
   end.
 
 Definition ekey_type (x : ekey) : N :=
@@ -88,10 +98,16 @@ Definition ekey_type (x : ekey) : N :=
   | KZScore _ _ _ _ => zscore_type
   | KBitmap _ _ _ => bitmap_type
   | KJson _ _ => json_type
+  | KTableMeta _ => table_meta_type
+  | KTableIndexMeta _ _ => table_index_meta_type
+  | KExpTime _ _ _ => exp_time_type
+  | KExpMeta _ _ => exp_meta_type
   end.
 Definition ekey_table (x : ekey) : bytes :=
   match x with
   | KKV t _ | KMeta _ t _ | KColl _ t _ _ | KList t _ _ | KZScore t _ _ _ | KBitmap t _ _ | KJson t _ => t
+  | KTableMeta t | KTableIndexMeta _ t => t
+  | KExpTime _ _ _ | KExpMeta _ _ => []
   end.
 
 (* the guards under which the keys are produced by the code:
@@ -108,6 +124,8 @@ Definition wf_ekey (x : ekey) : Prop :=
   | KZScore t _ sc _ => no_sep t /\ float_ok sc
   | KBitmap t _ i => no_sep t /\ int64_ok i
   | KJson t _ => no_sep t
+  | KTableMeta _ | KTableIndexMeta _ _ | KExpMeta _ _ => True
+  | KExpTime _ _ w => int64_ok w
   end.
 
 (* equality of keys up to the sign of a zero score *)
